@@ -37,6 +37,7 @@ pub struct RunStats {
     pub sched_points_atomic: u64,
     pub atomic_ops_seen: u64,
     pub futex_waits_as_yield: u64,
+    pub futex_timeouts_fired: u64,
     pub edges_seen: u64,
     pub log_records: u64,
     pub decisions: u64,
@@ -56,6 +57,10 @@ thread_local! {
     static ATOMIC_THIN: Cell<u32> = const { Cell::new(0) };
     static ATOMIC_COUNTER: Cell<u64> = const { Cell::new(0) };
     static FUTEX_YIELDS: Cell<u64> = const { Cell::new(0) };
+    /// control-flow edges executed by the instrumented build in this run (any task): the progress measure
+    static PROGRESS: Cell<u64> = const { Cell::new(0) };
+    /// (progress value at the last futex yield, consecutive futex yields at that value)
+    static FUTEX_STREAK: Cell<(u64, u64)> = const { Cell::new((0, 0)) };
     static EDGE_COUNTER: Cell<u64> = const { Cell::new(0) };
     static EDGE_SWITCHES: Cell<u64> = const { Cell::new(0) };
     static PHASE: Cell<Phase> = const { Cell::new(Phase::Other) };
@@ -131,6 +136,7 @@ pub fn edge_point() {
     if !ACTIVE.with(|a| a.get()) {
         return;
     }
+    PROGRESS.with(|p| p.set(p.get().wrapping_add(1)));
     let k = EDGE_THIN.with(|t| t.get());
     if k == 0 {
         return;
@@ -268,6 +274,11 @@ mod sysseam {
     /// per run: after this many futex waits turned into yields the wait is handed to the kernel after all
     /// (a genuine deadlock of the code under test then shows up as STUCK-IN-SIM instead of spinning for ever)
     pub const FUTEX_YIELD_BUDGET: u64 = 400_000;
+    /// consecutive no-progress futex waits after which the run is declared deadlocked (far more than the
+    /// scheduler needs to have run every runnable task: a yielding task is never chosen again before the others
+    /// under the priority / cyclic strategies, and is chosen with probability <= 1/2 under the random ones)
+    pub const DEADLOCK_STREAK: u64 = 20_000;
+    pub const TIMED_WAIT_YIELDS: u64 = 64;
     const FUTEX_WAIT: i32 = 0;
     const FUTEX_WAIT_BITSET: i32 = 9;
     const FUTEX_CMD_MASK: i32 = !(128 | 256);
@@ -302,7 +313,26 @@ mod sysseam {
                     c.set(v);
                     v
                 });
-                if used <= FUTEX_YIELD_BUDGET {
+                // consecutive futex waits (of any task) during which no task executed a single edge of the code
+                // under test: nobody is making progress
+                let progress = PROGRESS.with(|p| p.get());
+                let (last, streak) = FUTEX_STREAK.with(|c| c.get());
+                let streak = if last == progress { streak + 1 } else { 1 };
+                FUTEX_STREAK.with(|c| c.set((progress, streak)));
+                let timed = a4 != 0;
+                if timed && streak > TIMED_WAIT_YIELDS {
+                    // a wait with a deadline: simulated time jumps past it once nobody else can run usefully
+                    FUTEX_STREAK.with(|c| c.set((progress, 0)));
+                    STATS.with(|s| s.borrow_mut().futex_timeouts_fired += 1);
+                    *libc::__errno_location() = libc::ETIMEDOUT;
+                    return -1;
+                }
+                if !timed && streak > DEADLOCK_STREAK {
+                    // Every decision of the (fair-on-yield) scheduler over the whole window ran a task that went
+                    // straight back to waiting, and the words they wait on are unchanged: no task can ever move.
+                    // The wait is handed to the kernel; run_sim recognises the parked thread and reports it.
+                    DEADLOCKED.store(true, std::sync::atomic::Ordering::SeqCst);
+                } else if used <= FUTEX_YIELD_BUDGET {
                     STATS.with(|s| s.borrow_mut().futex_waits_as_yield += 1);
                     shuttle::thread::yield_now();
                     return 0;
@@ -316,6 +346,15 @@ mod sysseam {
         }
         r as libc::c_long
     }
+}
+
+#[cfg(all(not(miri), not(feature = "native"), target_arch = "x86_64", target_os = "linux"))]
+fn sysseam_deadlock_streak() -> u64 {
+    sysseam::DEADLOCK_STREAK
+}
+#[cfg(not(all(not(miri), not(feature = "native"), target_arch = "x86_64", target_os = "linux")))]
+fn sysseam_deadlock_streak() -> u64 {
+    0
 }
 
 pub fn set_thread_entropy(seed: Option<u64>) {
@@ -381,6 +420,12 @@ mod sched {
         }
     }
 
+    /// the runnable task after `cur` in cyclic id order: a yielding task waits for all others first
+    fn fair_next(ids: &[usize], cur: Option<usize>) -> usize {
+        let c = cur.unwrap_or(usize::MAX);
+        ids.iter().copied().filter(|i| *i > c && c != usize::MAX).min().unwrap_or_else(|| *ids.iter().min().unwrap())
+    }
+
     impl Scheduler for SimScheduler {
         fn new_execution(&mut self) -> Option<Schedule> {
             if self.started {
@@ -408,7 +453,9 @@ mod sched {
                                 // reported by the caller as a harness error, never as a violation
                                 self.shared.lock().unwrap().stats.replay_divergences += 1;
                             }
-                            if cur_runnable {
+                            if is_yielding {
+                                fair_next(&ids, cur)
+                            } else if cur_runnable {
                                 cur.unwrap()
                             } else {
                                 *ids.iter().min().unwrap()
@@ -418,7 +465,13 @@ mod sched {
                 }
                 Mode::Draw { rng, strategy, prio, change_points, low } => match strategy {
                     Strategy::Random => ids[rng.usize_below(ids.len())],
-                    Strategy::Lowest => *ids.iter().min().unwrap(),
+                    Strategy::Lowest => {
+                        if is_yielding {
+                            fair_next(&ids, cur)
+                        } else {
+                            *ids.iter().min().unwrap()
+                        }
+                    }
                     Strategy::Bursty { q } => {
                         if cur_runnable && !is_yielding && rng.below((*q).max(1) as u64) != 0 {
                             cur.unwrap()
@@ -553,6 +606,8 @@ pub const EDGE_SWITCH_BUDGET: u64 = 1_500_000;
 // is process-wide (a `static Mutex` in the code under test) every later run in this process would park on it too:
 // the process is tainted.  Worker processes therefore never retry in place: they report the run and the next
 // coarser preemption level and exit; the driver restarts a fresh worker at that run (framework::run_batch).
+/// set by the simulation thread when it detects that no task can make progress (sysseam), read by run_sim
+static DEADLOCKED: std::sync::atomic::AtomicBool = std::sync::atomic::AtomicBool::new(false);
 static TAINTED: std::sync::atomic::AtomicBool = std::sync::atomic::AtomicBool::new(false);
 static RESPAWN_MODE: std::sync::atomic::AtomicBool = std::sync::atomic::AtomicBool::new(false);
 /// preemption level the next parallel run starts at: 0 as planned, 1 no edge points, 2 task-granular
@@ -649,6 +704,8 @@ mod simexec {
                 ATOMIC_THIN.with(|t| t.set(knobs.atomic_thin));
                 ATOMIC_COUNTER.with(|c| c.set(0));
                 FUTEX_YIELDS.with(|c| c.set(0));
+                PROGRESS.with(|c| c.set(0));
+                FUTEX_STREAK.with(|c| c.set((0, 0)));
                 EDGE_COUNTER.with(|c| c.set(0));
                 EDGE_SWITCHES.with(|c| c.set(0));
                 COUNTER.with(|c| c.set(0));
@@ -697,6 +754,21 @@ mod simexec {
                         log::set_max_level(log::LevelFilter::Off);
                         set_tainted();
                         std::mem::forget(h);
+                        if DEADLOCKED.swap(false, std::sync::atomic::Ordering::SeqCst) {
+                            // the schedule that led there is complete in the recorder (the parked thread is
+                            // inside a task, not inside the scheduler)
+                            let rec = std::mem::take(&mut *shared.lock().unwrap());
+                            return SimOutcome {
+                                value: None,
+                                abort_msg: Some(format!(
+                                    "DEADLOCK-IN-SIM: every runnable task of the parallel build waits on a lock / condition (futex) and none executed any code over {} consecutive scheduling decisions",
+                                    sysseam_deadlock_streak()
+                                )),
+                                schedule: rec.rec,
+                                stats: rec.stats,
+                                pool: Default::default(),
+                            };
+                        }
                         return SimOutcome {
                             value: None,
                             abort_msg: Some("STUCK-IN-SIM: the simulation thread sleeps without consuming CPU; a task was preempted while holding a std lock".into()),
@@ -722,6 +794,7 @@ mod simexec {
     stats.sched_points_atomic = tl_stats.sched_points_atomic;
     stats.atomic_ops_seen = tl_stats.atomic_ops_seen;
     stats.futex_waits_as_yield = tl_stats.futex_waits_as_yield;
+    stats.futex_timeouts_fired = tl_stats.futex_timeouts_fired;
     stats.edges_seen = tl_stats.edges_seen;
         stats.log_records = tl_stats.log_records;
         let value = slot.lock().unwrap().take();
